@@ -3,7 +3,7 @@
 use crate::codec;
 use crate::containers as ct;
 use crate::ctx::{fnv_str, Ctx, Tier};
-use crate::memsource::{MemSource, TileMap};
+use crate::memsource::{Key, MemSource, TileMap};
 use crate::mvt::{self, feat, layer, line, point, s, DFeature, DLayer, Enc, MLayer, MVal};
 use crate::par::{catch, panic_site, par_for};
 use crate::pipeline::{self, AnySrc};
@@ -186,7 +186,7 @@ pub fn compare_layers(got: &[DLayer], want: &Want) -> Option<String> {
 pub fn run(ctx: Arc<Ctx>) {
 	ctx.rule(
 		"catalogue of 15 valid vector tiles built by an independent MVT encoder (disjoint/overlapping layer names, tables in other order / with duplicates / unused entries, ids none/0/2^64-1, all value kinds, extents, empty layer); \
-		 every ordered pair and every ordered triple and every ordered 4-tuple over the first 4 as source lists; each source holds its tile at one coordinate per presence mask, so every presence pattern occurs; source compressions mixed. \
+		 every ordered pair, every ordered triple (quick: over the first 14 tiles) and every ordered 4-tuple over the first 4 as source lists; each source holds its tile at one coordinate per presence mask, so every presence pattern occurs; source compressions mixed. \
 		 plus every ordered pair of a bounded-exhaustive family of small layers of one name (5 key tables x 4 value tables x feature lists with every tag list of <= 2 pairs; all in both tiers) merged through one pipeline whose sources hold layer i resp. j at (10,i,j). plus merges whose key/value tables cross 128 / 16384 (thorough: 2^21) entries only after merging. oracle on independently decoded output: layer set, features in source order with id/type/geometry bytes/property set, declared+delivered uncompressed, lookups = stream. non-trivial = (source list, presence mask) with >= 2 sources present",
 	);
 	let cat = catalogue();
@@ -198,7 +198,7 @@ pub fn run(ctx: Arc<Ctx>) {
 			tuples.push(vec![a, b]);
 		}
 	}
-	let tn = n;
+	let tn = ctx.tier.pick(n.min(14), n);
 	for a in 0..tn {
 		for b in 0..tn {
 			for c in 0..tn {
@@ -238,6 +238,9 @@ pub fn run(ctx: Arc<Ctx>) {
 			if j == 1 {
 				tiles.insert((9, 300, 300), codec::encode_with(comp, &raw));
 			}
+			// every source has a tile of its own on a row of its own (the first source southmost, the last one
+			// northmost and westmost), so that the merged coverage is a proper union in both directions
+			tiles.insert((6, 20 - 5 * j as u32, 40 - 9 * j as u32), codec::encode_with(comp, &raw));
 			sources.push(MemSource::new(&format!("s{j}"), tiles, TileFormat::PBF, ct::comp_from_id(comp)).with_yields((k - 1 - j) as u8 % 2));
 		}
 		let vpl = format!("from_vectortiles_merged [ {} ]", (0..k).map(|j| format!("from_container filename=\"mem:{j}\"")).collect::<Vec<_>>().join(", "));
@@ -324,6 +327,47 @@ pub fn run(ctx: Arc<Ctx>) {
 					if norm(sdec) != norm(ldec) {
 						ctxr.violation("merge stream and lookup disagree", &format!("coordinate (5,{mask},0)"), case.clone());
 					}
+				}
+			}
+		}
+		// the merged source advertises a coverage that holds every tile it returns, and walking that coverage level by
+		// level (as a conversion does) delivers each of them
+		{
+			let pyramid = src.parameters().bbox_pyramid.clone();
+			let mut own: Vec<Key> = (0..k).map(|j| (6u8, 20 - 5 * j as u32, 40 - 9 * j as u32)).collect();
+			own.push((9, 300, 300));
+			own.extend((1u32..(1 << k)).map(|m| (5u8, m, 0u32)));
+			let mut walked: std::collections::BTreeSet<Key> = Default::default();
+			for z in [5u8, 6, 9] {
+				let lv = pyramid.get_level_bbox(z).clone();
+				if !lv.is_empty() && lv.count_tiles() <= 4096 {
+					if let Ok(items) = catch(|| rt.block_on(src.stream(lv))) {
+						walked.extend(items.into_iter().map(|(key, _)| key));
+					}
+				} else if !lv.is_empty() {
+					// a large level box: walk the rows that hold tiles
+					for key in own.iter().filter(|c| c.0 == z) {
+						if let Ok(mut b) = TileBBox::new(z, key.1, key.2, key.1, key.2) {
+							b.intersect_bbox(&lv);
+							if !b.is_empty() {
+								if let Ok(items) = catch(|| rt.block_on(src.stream(b))) {
+									walked.extend(items.into_iter().map(|(key, _)| key));
+								}
+							}
+						}
+					}
+				}
+			}
+			for key in own {
+				if let Ok(Ok(Some(_))) = catch(|| rt.block_on(src.lookup(key))) {
+					let lv = pyramid.get_level_bbox(key.0);
+					if lv.is_empty() || key.1 < lv.x_min || key.1 > lv.x_max || key.2 < lv.y_min || key.2 > lv.y_max {
+						ctxr.violation("merged source returns a tile outside the coverage it advertises", &format!("tile {key:?}, advertised level box {lv:?}"), case.clone());
+					} else if !walked.contains(&key) {
+						ctxr.violation("walking the advertised coverage of the merged source misses a tile it returns", &format!("tile {key:?}, advertised level box {lv:?}"), case.clone());
+					}
+				} else if (key.0 == 6 || key.0 == 9) && (key.0 == 6 || k >= 2) {
+					ctxr.violation("merged tile missing although a source has a tile", &format!("tile {key:?} of a single source"), case.clone());
 				}
 			}
 		}
